@@ -209,14 +209,45 @@ where
             #[cfg(feature = "tracing")]
             debug!(coalesce = %name, "Request executing as leader");
 
+            // The key is registered already: if the inner service panics inside `call`,
+            // the registration has to go away again or the key would be blocked for ever
+            let mut registration = Registration {
+                key: Some(key),
+                in_flight: Arc::clone(&self.in_flight),
+            };
             let future = self.inner.call(request);
-            let in_flight = Arc::clone(&self.in_flight);
+            let key = registration.key.take();
+            let in_flight = Arc::clone(&registration.in_flight);
 
             CoalesceFuture::Leading {
                 future: Box::pin(future),
-                key: Some(key),
+                key,
                 in_flight,
             }
+        }
+    }
+}
+
+/// Removes a leader's registration when dropped with the key still in it.
+struct Registration<K, Res, E>
+where
+    K: Hash + Eq + Clone,
+    Res: Clone,
+    E: Clone,
+{
+    key: Option<K>,
+    in_flight: Arc<InFlight<K, Res, E>>,
+}
+
+impl<K, Res, E> Drop for Registration<K, Res, E>
+where
+    K: Hash + Eq + Clone,
+    Res: Clone,
+    E: Clone,
+{
+    fn drop(&mut self) {
+        if let Some(k) = self.key.take() {
+            self.in_flight.cancel(&k);
         }
     }
 }
